@@ -21,3 +21,29 @@ package signing
 //@   ensures err == nil ==> ownDraw(box(sc.state.k2), old(shk(sc.prng)), shk(sc.prng))
 //@   ensures err == nil ==> sc.state.bigR2 == sc.suite.Curve().ScalarBaseMul(sc.state.k2) && r2out.BigR2 == sc.state.bigR2
 //@   ensures sc.prng == old(sc.prng)
+
+// ---------------------------------------------------------------- acceptance gates (C01, C04)
+// Primary round 3: continues only if the secondary's discrete-log proof for R2 verifies (bound to the secondary's
+// identity and this primary as receiver). R = [k1]R2 and r = x(R) reduced.
+//@ func (*PrimaryCosigner).Round3
+//@   property C01, C04
+//@   ensures err == nil ==> r2out.Validate(&pc.Cosigner, pc.secondarySharingID) == nil
+//@   ensures err == nil ==> dlogVerify(&pc.Cosigner, pc.niDlogScheme, pc.secondarySharingID, r2out.BigR2Proof, r2out.BigR2, pc.SharingID()) == nil
+//@   ensures err == nil ==> pc.state.bigR == r2out.BigR2.ScalarMul(pc.state.k1)
+
+// Secondary round 4: the ciphertext c3 is produced only if the primary's opening (R1, proof) matches the commitment
+// received in round 2 under the session commitment key and the primary's discrete-log proof for R1 verifies; a
+// failure blames the primary. The message enters through the standard message-to-scalar conversion.
+//@ func (*SecondaryCosigner).Round4
+//@   property C01, C04
+//@   ensures err == nil ==> r3out.Validate(&sc.Cosigner, sc.primarySharingID) == nil
+//@   ensures err == nil ==> sc.commitmentKey.Open(sc.state.bigR1Commitment, bigR1CommitmentMessage(r3out.BigR1, r3out.BigR1Proof), r3out.BigR1Opening) == nil
+//@   ensures err == nil ==> dlogVerify(&sc.Cosigner, sc.niDlogScheme, sc.primarySharingID, r3out.BigR1Proof, r3out.BigR1, sc.SharingID()) == nil
+//@   ensures err == nil ==> mPrime == res(MessageToScalar(sc.suite, message), 0) && bigR == r3out.BigR1.ScalarMul(sc.state.k2)
+
+// Primary round 5: a signature is RELEASED only if the library's ECDSA verifier accepted exactly that signature for
+// exactly this message under the shard's group public key; a signature that does not verify blames the secondary.
+//@ func (*PrimaryCosigner).Round5
+//@   property C01, C04
+//@   ensures err == nil ==> verifier.Verify(result, publicKey, message) == nil && publicKey == res(ecdsa.NewPublicKey(pc.shard.PublicKeyValue()), 0) && result == signature
+//@   ensures err == nil ==> sDoublePrime == k1Inv.Mul(sPrime) && k1Inv == res(pc.state.k1.TryInv(), 0)
